@@ -55,6 +55,15 @@ def generated_corpus4():
     return [(oracles.sha(src), src, fam) for (src, fam) in progen.corpus4()]
 
 
+def generated_corpus5():
+    seen, out = set(), []
+    for (src, fam) in progen.corpus5():
+        if src not in seen:
+            seen.add(src)
+            out.append((oracles.sha(src), src, fam))
+    return out
+
+
 _TWINS = None
 
 
@@ -63,7 +72,7 @@ def twin_corpus():
     global _TWINS
     if _TWINS is None:
         out, seen = [], set()
-        for (_sha, src, fam) in generated_corpus()[:240] + generated_corpus2() + generated_corpus3() + generated_corpus4():
+        for (_sha, src, fam) in generated_corpus()[:240] + generated_corpus2() + generated_corpus3() + generated_corpus4() + generated_corpus5():
             t = progen.module_twin(src)
             if t and t not in seen:
                 seen.add(t)
@@ -90,8 +99,8 @@ def pick(items, ctx, quick_n):
 
 
 def targeted():
-    """the family-targeted corpora (12 + 2 + 6 families, and the module-level twins): run in full in both tiers, so that no family depends on the slice"""
-    return generated_corpus2() + generated_corpus3() + generated_corpus4() + twin_corpus()
+    """the family-targeted corpora (12 + 2 + 6 + 6 families, and the module-level twins): run in full in both tiers, so that no family depends on the slice"""
+    return generated_corpus2() + generated_corpus3() + generated_corpus4() + generated_corpus5() + twin_corpus()
 
 
 OPTION_COMBOS = [
@@ -174,7 +183,8 @@ def rule_names():
         if full not in names:
             names.append(full)
     for extra in ["fixes.simplify_assign_immediate_return", "abstractions.overused_constant", "fixes.align_variable_names_with_convention",
-                  "fixes.remove_unused_imports", "fixes.sort_imports", "fixes.deinterpolate_logging_args", "fixes.invalid_escape_sequence"]:
+                  "fixes.remove_unused_imports", "fixes.sort_imports", "fixes.deinterpolate_logging_args", "fixes.invalid_escape_sequence",
+                  "fixes.add_missing_imports", "fixes.fix_line_lengths", "fixes.fix_import_spacing", "abstractions.create_abstractions"]:  # formatting.* are wrappers of black / compactify, not rules
         if extra not in names:
             names.append(extra)
     return names
